@@ -454,12 +454,14 @@ rt_type_for_size(vh_rng *r, unsigned words)
 static void
 rt_gen_wellformed(vh_rng *r, struct rt_desc *d, int allow_fail)
 {
-    static const uint32_t bases[] = { 0, 1, 5, 0x100, 0x7ffe };
+    /* incl. 16/31/32-bit boundaries of the address arithmetic; the last one leaves room for three areas and
+     * their gaps below 2^32 */
+    static const uint32_t bases[] = { 0, 1, 5, 0x100, 0x7ffe, 0xfff8, 0x7ffffff0u, 0xffffff00u };
     static const uint32_t gaps[] = { 0, 0, 1, 3 };
     memset(d, 0, sizeof *d);
     d->nareas = 1 + (int)vh_below(r, 3);
     d->bigendian = (int)vh_below(r, 2);
-    uint32_t cursor = bases[vh_below(r, 5)];
+    uint32_t cursor = bases[vh_below(r, 8)];
     for (int i = 0; i < d->nareas; i++) {
         struct rt_area *a = &d->area[i];
         a->base = cursor;
